@@ -6,6 +6,7 @@ import (
 	"fmt"
 
 	"github.com/gogpu/naga/internal/zzspv"
+	"github.com/gogpu/naga/internal/zztpl"
 	zz "github.com/gogpu/naga/internal/zzverif"
 	"github.com/gogpu/naga/spirv"
 )
@@ -109,4 +110,14 @@ func zzRunTemplate(t zzTemplate) {
 
 func ZZ_C01_tv_templates() {
 	zzRunTemplate(zzTemplatesA[zz.Choice("template", len(zzTemplatesA))])
+}
+
+// Thorough tier: every template followed by each probe template in one entry point.
+func ZZ_C01_tv_template_pairs() {
+	if !zz.Thorough() {
+		zz.Reach("end")
+		return
+	}
+	pairs := zztpl.Pairs()
+	zzRunTemplate(pairs[zz.Choice("pair", len(pairs))])
 }
